@@ -16,7 +16,9 @@ EXPLANATION = (
     "applied exactly once; (R05.4) virtual-hierarchy prolongators: identity block for kept dofs, restricted Kronecker rows for "
     "the refined ones, inverse truncation applied per level for THB; in represent_fine the rows zeroed by truncation and the "
     "column block selected per level come from the same per-level index lists (origin + element stores compared) and address "
-    "levels k+1 resp. k.")
+    "levels k+1 resp. k; (R05.5 = R04.4) cached index lists are invalidated after every state write; (R05.6) every exit of "
+    "truncate_one_level returns I +- A, truncation applies to every construction of the one-level prolongator, and the caller's "
+    "row selection of represent_fine is read-only.")
 DOES_NOT_DECIDE = ("that any prolongation matrix represents the identical function (the THB virtual-hierarchy and finite-disparity "
                    "prolongate_to defects quoted in the property are value-level and out of reach of these rules); pruning threshold effects")
 TECHNIQUE = "custom AST rules: affine range tiling, sibling comparison of constructions, option forwarding"
